@@ -157,10 +157,12 @@ def check_orth(ctx, Z, k, tag=''):
         ctx.claim(f'right_orthonormal{tag}', ctx.all_eq(V @ V.T, eye(ctx, V.shape[0])))
 
 
-def h_sweep_quasi(ctx, d, n, k):
+def h_sweep_quasi(ctx, d, n, k, kkind='int'):
+    """kkind: the pivot as a Python int, a NumPy integer scalar or an element of an index array."""
     Y, W = quasi_diag_tt(ctx, d, n)
     Y0 = [G.copy() for G in Y]
-    Z = teneva.orthogonalize(Y, k)
+    kk = {'int': k, 'np.int64': np.int64(k), 'np.int32': np.int32(k), 'arange': np.arange(d)[k]}[kkind]
+    Z = teneva.orthogonalize(Y, kk)
     ctx.claim('well_formed', well_formed(Z, [n] * d))
     F0 = ref_full(Y0)
     ctx.claim('tensor_preserved', ctx.all_eq(ref_full(Z), F0))
@@ -355,6 +357,9 @@ def instances(tier):
     for d, n in ([(3, 2), (4, 2)] if tier == 'quick' else [(3, 2), (4, 2), (3, 3), (5, 2)]):
         for k in range(d):
             out.append({'func': 'h_sweep_quasi', 'params': {'d': d, 'n': n, 'k': k}})
+    # the pivot given as a NumPy integer (what argmax / arange / an index array hand over)
+    for k, kkind in [(0, 'np.int64'), (1, 'np.int32'), (1, 'arange'), (2, 'np.int64')]:
+        out.append({'func': 'h_sweep_quasi', 'params': {'d': 3, 'n': 2, 'k': k, 'kkind': kkind}})
     for d, n in ([(3, 2)] if tier == 'quick' else [(3, 2), (4, 2)]):
         for k in range(d):
             out.append({'func': 'h_sweep_stab_quasi', 'params': {'d': d, 'n': n, 'k': k},
